@@ -192,7 +192,7 @@ def rand_scenario(
         "cfg": cfg,
         "place": place,
         "bs_kind": rng.choice(["sync", "async", "lambda"] if exotic_callables else ["sync", "async"]),
-        "sleeper_kind": rng.choice(["async", "sync", "lambda", "callable"] if exotic_callables else ["async", "async", "sync"]),
+        "sleeper_kind": rng.choice(["async", "sync", "lambda", "callable", "falsy"] if exotic_callables else ["async", "async", "sync"]),
         "timeline": rng.choice([False, True, "obj"]),
         "via_config": bool(p_via_config and rng.random() < p_via_config),
         "poll": rng.random() < 0.15,
